@@ -719,14 +719,14 @@ EsdShapes == { [id |-> id, name |-> nm, vu |-> vu, cd |-> cd, nested |-> ne, eds
 Widths == {1, 2, 30, 40, NestingBound - 1, NestingBound, NestingBound + 1, NestingBound + 200}
 MaxTreeElements == 2 * NestingBound + 500
 Fans == {<<>>} \cup { <<a>> : a \in Widths } \cup { <<a, b>> : a \in Widths, b \in Widths }
-Chains == {1, 2, 3, NestingBound - 1, NestingBound, NestingBound + 1}
+Chains == {1, 2, NestingBound - 1, NestingBound, NestingBound + 1} \cup (IF Q THEN {} ELSE {3})
 EsdTrees == { t \in { Tree(c, f, l) : c \in Chains, f \in Fans, l \in 0..1 } :
                 /\ t # NoTree
                 /\ TreeElements(t) <= MaxTreeElements
                 /\ (t.chain > 3 => Len(t.fan) <= 1 /\ \A i \in DOMAIN t.fan : t.fan[i] <= 2) }   \* deep chains end in a small fan
 EsdTreeShapes == { [id |-> FALSE, name |-> TRUE, vu |-> vu, cd |-> cd, nested |-> 0, eds |-> 0, tree |-> t] :
                      vu \in { [p |-> FALSE, v |-> [z |-> TRUE, ms |-> 0, sub |-> 0]] },
-                     cd \in { [p |-> FALSE, v |-> DurZero], [p |-> TRUE, v |-> Dur(FALSE, 1, 0, 0, Zero9)] },
+                     cd \in { [p |-> FALSE, v |-> DurZero] } \cup (IF Q THEN {} ELSE { [p |-> TRUE, v |-> Dur(FALSE, 1, 0, 0, Zero9)] }),
                      t \in EsdTrees }
 
 \* configurations of the two metadata generators
